@@ -19,6 +19,7 @@ import (
 	"strconv"
 	"strings"
 	"testing"
+	"time"
 
 	"golang.org/x/perf/benchproc"
 	"golang.org/x/perf/cmd/benchstat/internal/benchtab"
@@ -67,7 +68,11 @@ func c15RunSim(t *testing.T, r *sim.Run, args []string, gmp int) c15Out {
 	r.SimProcs = gmp
 	defer func() { r.SimProcs = 0 }()
 	before := r.Steps
+	skew := c15ClockSkew
 	r.Bubble(t, 400000, func(s *sim.Sched) {
+		if skew > 0 {
+			time.Sleep(skew) // nothing else runs yet: the bubble's clock jumps
+		}
 		s.Go("main", 0, func() {
 			defer func() {
 				if p := recover(); p != nil {
@@ -84,6 +89,8 @@ func c15RunSim(t *testing.T, r *sim.Run, args []string, gmp int) c15Out {
 	out.Steps = r.Steps - before
 	return out
 }
+
+var c15ClockSkew time.Duration // simulated time that has passed when the next execution starts
 
 var (
 	c15Dir      string
@@ -478,7 +485,23 @@ func c15Episode(t *testing.T, r *sim.Run, tier string) {
 	for e := 0; e < n; e++ {
 		ai := T.Intn(len(argsets), "which-argset")
 		gmp := []int{4, 1, 2, 16}[T.Intn(4, "gomaxprocs")]
+		// "arguments and file contents alone": the wall clock and the environment are not among them
+		c15ClockSkew = []time.Duration{0, 0, time.Second, 90 * time.Minute, 36 * time.Hour, 400 * 24 * time.Hour}[T.Intn(6, "clock")]
+		envk := []string{"", "", "COLUMNS", "LANG", "NO_COLOR", "TERM", "HOME", "GODEBUG"}[T.Intn(8, "env")]
+		envOld, envHad := "", false
+		if envk != "" {
+			envOld, envHad = os.LookupEnv(envk)
+			os.Setenv(envk, map[string]string{"COLUMNS": "37", "LANG": "tr_TR.UTF-8", "NO_COLOR": "1", "TERM": "dumb", "HOME": "/nonexistent", "GODEBUG": "randautoseed=0"}[envk])
+		}
 		got := c15RunSim(t, r, argsets[ai], gmp)
+		c15ClockSkew = 0
+		if envk != "" {
+			if envHad {
+				os.Setenv(envk, envOld)
+			} else {
+				os.Unsetenv(envk)
+			}
+		}
 		r.Logf("exec %d: argset %d GOMAXPROCS=%d strategy=%s steps=%d stdout %x stderr %x err %q", e, ai, gmp, r.Info["strategy"], got.Steps, sim.HashStr(got.Stdout), sim.HashStr(got.Stderr), got.Err)
 		if r.Failed() {
 			return
